@@ -139,6 +139,14 @@ def run_execution(scn, dev=None, expect=None, opt=None, task=None, keep_args=Fal
     CTL.reset(dev, scn.get('seed', 0), menu3=scn.get('menu3', False), expect=expect)
     mode, workers = scn.get('mode'), scn.get('workers')
     out = io.StringIO()
+    tmo = scn.get('timeout')
+    if tmo:
+        import signal
+
+        def _alarm(*a):
+            raise TimeoutError(f"execution cut after {tmo} s")
+        old_alarm = signal.signal(signal.SIGALRM, _alarm)
+        signal.alarm(int(tmo))
     try:
         with Instrument(type(opt), ex), contextlib.redirect_stdout(out), np.errstate(all='ignore'), \
                 _no_warnings():
@@ -155,6 +163,9 @@ def run_execution(scn, dev=None, expect=None, opt=None, task=None, keep_args=Fal
                 ex.exc = exc_info(e)
                 ex.extra['exc_is_valueerror'] = isinstance(e, ValueError)
     finally:
+        if tmo:
+            signal.alarm(0)
+            signal.signal(signal.SIGALRM, old_alarm)
         CTL.active = False
         pools.uninstall()
     ex.trace = CTL.trace
